@@ -298,7 +298,20 @@ func scenario(r *Rng, hist Hist) (*scenarioResult, error) {
 		if up {
 			break
 		}
-		pool.Shutdown()
+		sdc := make(chan struct{})
+		go func(p *gnet.ConnectionPool) { p.Shutdown(); close(sdc) }(pool)
+		select {
+		case <-sdc:
+		case <-time.After(10 * time.Second):
+			// Shutdown of a pool whose Run failed to listen does not return
+			res.hang = true
+			res.stacks = dumpStacks()
+			res.variant = "run-fails-to-bind(port taken during start)"
+			res.threads = 1
+			res.calls = make([][]callRec, 1)
+			res.shutStart = nextSeq()
+			return res, nil
+		}
 		if attempt >= 8 {
 			return nil, errors.New("pool did not start listening")
 		}
@@ -734,7 +747,10 @@ func lifecycle(r *Rng, variant string, hist Hist) (*scenarioResult, error) {
 		} else {
 			time.Sleep(time.Duration(500+r.Intn(3000)) * time.Microsecond)
 		}
-		establish()
+		// under the watchdog: with a dead strand Connect / Size never return
+		ec := make(chan string, 1)
+		go func() { establish(); ec <- "done" }()
+		wait(ec, dog)
 		close(phase[0]) // calls between the (failed) Run and Shutdown
 		time.Sleep(time.Duration(r.Intn(3000)) * time.Microsecond)
 		res.shutStart = nextSeq()
@@ -925,5 +941,9 @@ func run(args []string) error {
 	o.Side["distribution"] = hist.Sorted()
 	o.Side["handled_messages"] = atomic.LoadInt64(&handledCount)
 	o.Side["rule"] = "scenario = one real ConnectionPool on 127.0.0.1 with 3-7 caller threads issuing random Connect/Disconnect/SendMessage/BroadcastMessage/Size/GetConnections/GetConnection/GetStaleConnections/SendPings, 2 external clients dialling in and sending frames / garbage, remote peers answering, one Shutdown at a random point, 3 more calls per thread after Shutdown returned; GOMAXPROCS in {1,2,4,8,16}, Gosched / sleeps as scheduling noise; non-trivial = at least one call ran and at least one returned pool-closed"
-	return o.Write(f.Out, f.JSON)
+	if err := o.Write(f.Out, f.JSON); err != nil {
+		return err
+	}
+	os.Exit(0) // outputs are written: a goroutine stuck in a hung scenario must not keep the process alive
+	return nil
 }
